@@ -19,6 +19,9 @@
                        a function); AutoCliOpts: CLI only
                      ethereum/eip712/types.go sortedJSONKeys: collect-then-sort, same shape as the commit loop
                      x/cpc/keeper/precompiles_util.go normalizedEvent.Attributes: a map that is never ranged over
+                     go-ethereum fork core/vm/evm_evermint.go GetCustomPrecompiledContractsAddress (ranges over the map of
+                       custom precompiles): its only consumer, TransitionDb in x/evm/keeper/state_transition_core.go, feeds
+                       the list to PrepareAccessList, i.e. inserts every element into a set: again map -> set
      node config     minimum-gas-prices: app/antedl/duallane/07_deduct_fee.go getMinGasPricesAllowed reads
                        ctx.MinGasPrices() only under ctx.IsCheckTx() && !ctx.IsReCheckTx()               [n_min_gas]
                      evm.tracer: app/keepers/keepers.go -> evmkeeper.NewKeeper(tracer) -> x/evm/types/tracer.go
